@@ -6,9 +6,16 @@
 // receives is decoded by the reference parsers and judged by rules D1–D5 of
 // DESIGN.md §3 C02.  (The RTSP leg lives in rtsp_test.go.)
 //
+// After audit 1: streams carry metadata and re-sent sequence headers inside the
+// stream, the AAC configuration may change, audio may be Opus / G.711 mu-law;
+// the metadata a consumer is given must be the one in force in ITS incarnation
+// (D1/stale-metadata), every header record must stem from an incarnation the
+// consumer was attached to (D2/stale-header); HTTP-TS consumers are judged by
+// ts_test.go (PES units mapped back to published messages).
+//
 // Deliberately NOT asserted: exact cap arithmetic (cap and cap+1 both
 // accepted); whether headers are re-sent to already attached consumers; that
-// the run from the join point is complete (C01).
+// the run from the join point is complete for RTMP / FLV (C01).
 package c02
 
 import (
